@@ -656,14 +656,14 @@ static void genUnwind(Rng& r, Out& out) {
 static std::vector<long> pickK(Rng& r, long N, bool thorough) {
     std::vector<long> ks;
     if (N <= 0) return ks;
-    long all = thorough ? 32 : 7;
+    long all = thorough ? 24 : 7;
     if (N <= all) { for (long k = 1; k <= N; k++) ks.push_back(k); return ks; }
     ks = {1, 2, N - 1, N, (N + 1) / 2};
     long strata = all - 5;
     for (long i = 0; i < strata; i++) { long lo = 1 + i * N / strata, hi = std::max(lo, (i + 1) * N / strata); ks.push_back(lo + (long) r.below((uint64_t) (hi - lo + 1))); }
     // every distinct call-stack context of a poll is interrupted at its first and at its last occurrence (and once in between)
     { std::map<int, std::vector<long>> occ; for (size_t i = 0; i < g_ctxSeq.size() && (long) i < N; i++) occ[g_ctxSeq[i]].push_back((long) i + 1);
-      long budget = thorough ? 96 : 16;
+      long budget = thorough ? 24 : 16;
       for (auto& kv : occ) { if (budget <= 0) break; const std::vector<long>& v = kv.second;
           ks.push_back(v.front()); budget--; if (v.size() > 1) { ks.push_back(v.back()); budget--; } if (v.size() > 2) { ks.push_back(v[1 + r.below(v.size() - 2)]); budget--; } } }
     std::sort(ks.begin(), ks.end()); ks.erase(std::unique(ks.begin(), ks.end()), ks.end());
